@@ -30,6 +30,8 @@ var c01Lines = []string{
 	`ip=notanip d=soon sz=big y=b`, `sz=big d=soon`, `sz= d= x=`,
 	// invalid UTF-8 other than the needle \xff: byte-wise and rune-wise search disagree on these
 	"\xfeb", "a\xc3", "\xef\xbf\xbd",
+	// IPv6 addresses that start with a hex letter
+	"peer fe80::1 up", "mc ff02::2", "fd00::5 and 10.0.0.1", "cafe::1",
 	// long lines: the needle only at the very end, beyond 1 KiB; a long logfmt record
 	strings.Repeat("x", 1100) + "ab", strings.Repeat("pad=1 ", 180) + "x=7 y=b",
 }
@@ -101,7 +103,7 @@ func c01Stages() []refmodel.Stage {
 		}
 	}
 	for _, op := range []string{"|=", "!="} {
-		for _, v := range []string{"10.0.0.1", "10.0.0.1-10.0.0.5", "10.0.0.0/24", "::1"} {
+		for _, v := range []string{"10.0.0.1", "10.0.0.1-10.0.0.5", "10.0.0.0/24", "::1", "fe80::/10", "80::1"} {
 			a = append(a, lfip(op, v))
 		}
 	}
@@ -123,6 +125,11 @@ func c01Stages() []refmodel.Stage {
 		pb("and", pn("x", ">", "number", "5"), ps("x", "=", "007")),
 		pb("and", pn("x", ">=", "number", "5"), ps("x", "=~", "5.0|1e1")),
 		ps("x", "=", "007"),
+		// predicates over the stream's own labels (what a storage could be asked to evaluate)
+		pb("or", ps("app", "=", "x"), ps("env", "=", "p")),
+		pb("or", ps("app", "=", "x"), ps("app", "=", "y")),
+		pb("and", ps("app", "=", "x"), ps("env", "!=", "p")),
+		pb("or", ps("app", "=~", "x"), ps("msg", "=", "a")),
 	} {
 		a = append(a, lab(p))
 	}
